@@ -55,6 +55,10 @@ def step (s : Option Mbc) (w : List String) : Option Mbc × String :=
       | ["r", a] => match parseHex a with
           | some a => (s, rd c (a % 65536))
           | none => (s, "bad-op")
+      | ["dma", _] => (s, "ok")     -- an OAM DMA elsewhere on the bus does not concern the cartridge
+      | ["tm", n] => match n.toNat? with
+          | some n => (some ((List.range n).foldl (fun (acc : Mbc) _ => acc.tick) c), "ok")
+          | none => (s, "bad-op")
       | ["win"] => (s, " ".intercalate (winAddrs.map (rd c)))
       | ["dump"] =>
           let d := c.dump
